@@ -101,6 +101,13 @@ CHECKS["C10"] = dict(
    design="DESIGN.md 4 C10",
    note="Trusted: Coq kernel + vm_compute; arrival-scheduling context; known finding D9 (snapshot interval > 1 after an error) is reproduced by the faithful model (OAssert) and matched specifically.",
    technique="Coq proof over hand-written Gallina model + lockstep correspondence under scheduled arrival + direct oracle")
+CHECKS["C16"] = dict(
+   text="Model of iterator construction from a loaded state dict as a staged machine with a process table (SdlCompat.v) with theorems: for ALL ordered pairs (saving, loading) num_workers "
+        "incl. 0 on either side the next iteration is accepted iff they are equal; a rejected load leaves the table empty; retrying raises again; a valid load afterwards is accepted; {} is a no-op. "
+        "Correspondence: EXHAUSTIVE over pairs 0..3 x 0..3 x dataset kinds on real loaders: exception vs data, retry, live children after rejection, then a valid load and drain.",
+   design="DESIGN.md 4 C16",
+   note="Trusted: Coq kernel; that __del__ of the half-built iterator runs when the exception unwinds is CPython behaviour (observed by the census, not modelled) - partial in that sense.",
+   technique="Coq proof over hand-written Gallina model + exhaustive pairwise correspondence on real loaders")
 props = [json.loads(l) for l in open(os.path.join(V, "properties.jsonl"))]
 checks, na = [], []
 for p in props:
